@@ -57,7 +57,7 @@ func race(query string, timeout time.Duration, keepAs string) solveResult {
 	defer cancel()
 	t0 := time.Now()
 	secs := fmt.Sprint(int(timeout.Seconds()) + 1)
-	cmds := [][]string{{"z3-new", "-T:" + secs, f.Name()}, {"z3", "-T:" + secs, f.Name()}, {"cvc5", "--produce-models", "--tlimit=" + fmt.Sprint(int(timeout.Milliseconds())), f.Name()}}
+	cmds := [][]string{{"z3-new", "-T:" + secs, f.Name()}, {"z3", "-T:" + secs, f.Name()}, {"cvc5", "--produce-models", "--strings-exp", "--tlimit=" + fmt.Sprint(int(timeout.Milliseconds())), f.Name()}}
 	for _, c := range cmds {
 		go func(c []string) {
 			solverSem <- struct{}{}
